@@ -87,6 +87,13 @@ def cases(tier, seed):
             if k % 5 == 0 and base[0] >= 4:
                 case["unit"]["fault"] = [rng.randrange(2, base[0]), rng.choice(["silent", "err", "errsame"])]
             cs.append(case)
+    # a bank object of the user's own whose values are declared in two instalments, with a whole-bank read in between
+    for label in memseq.SPECMAP:
+        nvals = len(memseq.bank_obj(label).values)
+        for k in range(3 if tier == "quick" else 12):
+            base = memseq.default_image(label, rng, "rand")
+            cs.append({"seq": "read_all", "latch": k % 2, "late": rng.randrange(0, nvals + 1) if k else 0,
+                       "unit": memseq.unit("gear" if k % 2 else "device", label, base)})
     # two whole-bank reads of the SAME bank (two units on two buses) running interleaved, and a whole-bank read interleaved
     # with single-value reads of that bank: the bank and value objects are shared by all units of a process
     for label in sorted({lb for (lb, _) in memseq.VALUES}):
